@@ -282,6 +282,27 @@ pub struct Scenario {
     /// server keeps accepting (false = stops after n accepted, only in non-coop)
     pub server_accept_limit: Option<usize>,
     pub max_steps: u64,
+    /// C07 fault enumeration: how and when the connection is ended, then probed
+    pub ending: Option<Ending>,
+}
+
+#[derive(Debug, Clone, Copy, PartialEq, Eq)]
+pub enum EndKind {
+    /// both directions cut with a clean EOF
+    CutEof,
+    /// both directions cut, readers see ConnectionReset
+    CutReset,
+    DropClientConn,
+    DropServerConn,
+    AbruptShutdown(u32),
+    GracefulShutdown,
+}
+
+#[derive(Debug, Clone, Copy)]
+pub struct Ending {
+    pub kind: EndKind,
+    /// world step (scheduler decisions) after which the ending is applied
+    pub at_step: u64,
 }
 
 impl Scenario {
@@ -295,7 +316,7 @@ impl Scenario {
             "n_clones": self.n_clones,
             "conn_ops": self.conn_ops.iter().map(|o| format!("{}@{}:{:?}", if o.side_server {"S"} else {"C"}, o.after_yields, o.kind)).collect::<Vec<_>>(),
             "faults": self.faults.iter().map(|f| format!("{:?}", f)).collect::<Vec<_>>(),
-            "coop": self.coop, "second_wave": self.second_wave.len(),
+            "coop": self.coop, "second_wave": self.second_wave.len(), "ending": self.ending.map(|e| format!("{:?}@step{}", e.kind, e.at_step)),
         })
     }
 }
@@ -834,5 +855,6 @@ pub fn generate(seed: u64, o: &GenOpts) -> Scenario {
         second_wave,
         server_accept_limit: None,
         max_steps: 3_000_000,
+        ending: None,
     }
 }
